@@ -44,13 +44,13 @@ var (
 )
 
 // Constructors.
-func Int(i int64) *V    { return &V{K: KInt, I: i} }
-func Sym(s string) *V   { return internSym(strings.ToLower(s)) }
-func Str(s string) *V   { return &V{K: KStr, S: s} }
-func Char(r rune) *V    { return &V{K: KChar, I: int64(r)} }
+func Int(i int64) *V     { return &V{K: KInt, I: i} }
+func Sym(s string) *V    { return internSym(strings.ToLower(s)) }
+func Str(s string) *V    { return &V{K: KStr, S: s} }
+func Char(r rune) *V     { return &V{K: KChar, I: int64(r)} }
 func Num(text string) *V { return &V{K: KNum, S: text} }
-func Vec(e ...*V) *V    { return &V{K: KVec, L: e} }
-func Quote(d *V) *V     { return &V{K: KQuote, L: []*V{d}} }
+func Vec(e ...*V) *V     { return &V{K: KVec, L: e} }
+func Quote(d *V) *V      { return &V{K: KQuote, L: []*V{d}} }
 
 func internSym(s string) *V {
 	switch s {
@@ -193,10 +193,22 @@ func (v *V) src(b *strings.Builder, rename func(string) string) {
 			v.L[1].src(b, rename)
 			return
 		}
+		// an empty binding / parameter list is written () rather than nil
+		empty := -1
+		switch v.Head() {
+		case "let", "let*", "do", "do*", "lambda", "multiple-value-bind":
+			empty = 1
+		case "defun":
+			empty = 2
+		}
 		b.WriteByte('(')
 		for i, e := range v.L {
 			if 0 < i {
 				b.WriteByte(' ')
+			}
+			if i == empty && e.IsNil() {
+				b.WriteString("()")
+				continue
 			}
 			e.src(b, rename)
 		}
